@@ -51,7 +51,17 @@ pub fn load() -> &'static KnownFile {
     })
 }
 
+static STRICT: std::sync::atomic::AtomicBool = std::sync::atomic::AtomicBool::new(false);
+
+/// strict mode: no routing around open findings (used when replaying a finding's reproducer and by `sev replay`)
+pub fn set_strict(b: bool) {
+    STRICT.store(b, std::sync::atomic::Ordering::SeqCst);
+}
+
 pub fn is_open(id: &str) -> bool {
+    if STRICT.load(std::sync::atomic::Ordering::SeqCst) {
+        return false;
+    }
     load().findings.iter().any(|f| f.id == id && f.status == "open")
 }
 
